@@ -35,6 +35,10 @@ const (
 	UserRW   = "u_rw"    // read-write user, no read/write splitting
 	UserRWS  = "u_split" // read-write user with read/write splitting
 	UserRO   = "u_ro"    // read-only user
+	// user types (models.User.OtherProperty): the slice picks the pool group by it
+	UserStat  = "u_stat"  // read-write statistic user (other_property=1), no rw-splitting
+	UserMon   = "u_mon"   // read-write monitor user (other_property=2), with rw-splitting
+	UserAdmin = "u_admin" // read-write admin / pass-through user (other_property=3), with rw-splitting
 	Database = "db_ks"
 )
 
@@ -47,9 +51,9 @@ type Config struct {
 }
 
 func nsConfig(c Config) *models.Namespace {
-	mk := func(name, master, slave string) *models.Slice {
+	mk := func(name, master, slave, stat string) *models.Slice {
 		return &models.Slice{Name: name, UserName: "root", Password: "root", Master: master, Slaves: []string{slave},
-			Capacity: 1, MaxCapacity: 1, IdleTimeout: 0}
+			StatisticSlaves: []string{stat}, Capacity: 1, MaxCapacity: 1, IdleTimeout: 0}
 	}
 	return &models.Namespace{
 		Name:          NsName,
@@ -57,8 +61,8 @@ func nsConfig(c Config) *models.Namespace {
 		AllowedDBS:    map[string]bool{Database: true},
 		DefaultPhyDBS: map[string]string{Database: Database},
 		Slices: []*models.Slice{
-			mk("slice-0", "127.0.0.1:1#c3", "127.0.0.2:1#c3"),
-			mk("slice-1", "127.0.0.3:1#c3", "127.0.0.4:1#c3"),
+			mk("slice-0", "127.0.0.1:1#c3", "127.0.0.2:1#c3", "127.0.0.5:1#c3"),
+			mk("slice-1", "127.0.0.3:1#c3", "127.0.0.4:1#c3", "127.0.0.6:1#c3"),
 		},
 		ShardRules: []*models.Shard{{DB: Database, Table: "tbl_ks", Type: "mod", Key: "id",
 			Locations: []int{1, 1}, Slices: []string{"slice-0", "slice-1"}}},
@@ -66,6 +70,9 @@ func nsConfig(c Config) *models.Namespace {
 			{UserName: UserRW, Password: "p", Namespace: NsName, RWFlag: models.ReadWrite, RWSplit: models.NoReadWriteSplit},
 			{UserName: UserRWS, Password: "p", Namespace: NsName, RWFlag: models.ReadWrite, RWSplit: models.ReadWriteSplit},
 			{UserName: UserRO, Password: "p", Namespace: NsName, RWFlag: models.ReadOnly, RWSplit: models.ReadWriteSplit},
+			{UserName: UserStat, Password: "p", Namespace: NsName, RWFlag: models.ReadWrite, RWSplit: models.NoReadWriteSplit, OtherProperty: models.StatisticUser},
+			{UserName: UserMon, Password: "p", Namespace: NsName, RWFlag: models.ReadWrite, RWSplit: models.ReadWriteSplit, OtherProperty: models.MonitorUser},
+			{UserName: UserAdmin, Password: "p", Namespace: NsName, RWFlag: models.ReadWrite, RWSplit: models.ReadWriteSplit, OtherProperty: models.AdminUser},
 		},
 		DefaultSlice:                "slice-0",
 		SetForKeepSession:           c.KeepSession,
@@ -110,8 +117,13 @@ func New(cfg Config) (*World, error) {
 	return w, nil
 }
 
-// patch replaces the business pools of every slice (master + replicas) by fakes and closes
-// the real pools (their capacity timers would otherwise keep running).
+// IsMasterRole tells whether a fake pool role is a pool of the slice's master instance
+// (business master pool or the monitor users' own master pool) as opposed to a replica group
+// (slave, stat_slave, mon_slave).
+func IsMasterRole(role string) bool { return role == "master" || role == "mon_master" }
+
+// patch replaces every pool group of every slice (master, slaves, statistic slaves, monitor
+// master, monitor slaves) by distinguishable fakes and closes the real pools (their capacity timers would otherwise keep running).
 func (w *World) patch(ns *server.Namespace) {
 	for _, name := range []string{"slice-0", "slice-1"} {
 		sl := ns.GetSlice(name)
@@ -131,9 +143,9 @@ func (w *World) patch(ns *server.Namespace) {
 		}
 		swap(sl.Master, "master")
 		swap(sl.Slave, "slave")
-		swap(sl.StatisticSlave, "")
-		swap(sl.MonitorMaster, "")
-		swap(sl.MonitorSlave, "")
+		swap(sl.StatisticSlave, "stat_slave")
+		swap(sl.MonitorMaster, "mon_master")
+		swap(sl.MonitorSlave, "mon_slave")
 	}
 }
 
@@ -554,7 +566,8 @@ func SortedKeys(m map[string]int) []string {
 }
 
 // PoolKeys lists the fake pool keys of a world configuration.
-var PoolKeys = []string{"slice-0/master", "slice-0/slave", "slice-1/master", "slice-1/slave"}
+var PoolKeys = []string{"slice-0/master", "slice-0/slave", "slice-0/stat_slave", "slice-0/mon_master", "slice-0/mon_slave",
+	"slice-1/master", "slice-1/slave", "slice-1/stat_slave", "slice-1/mon_master", "slice-1/mon_slave"}
 
 // SeqOrder returns, for one step, the order in which pools were first touched by an op
 // that the executor issues from a sequential loop (everything except use_db / statement
